@@ -20,9 +20,11 @@ var c05Table = map[xgen.Op]string{xgen.OpEq: "F", xgen.OpIn: "F", xgen.OpMatches
 	xgen.OpNe: "T", xgen.OpNotIn: "T", xgen.OpNotMatches: "T", xgen.OpEmpty: "T"}
 
 var c05Unknowns = []*univ.Node{univ.Str(""), univ.Str("abc"), univ.Bool(true), univ.Bool(false), univ.Int(0), univ.Int(7), univ.IntOf(univ.TInt64, -3), univ.UintOf(univ.TUint8, 200),
-	univ.Float(1.5), univ.FloatOf(univ.TFloat32, 0.5), univ.StrOf(univ.NamedScalarTypes[9], "abc"), univ.IntOf(univ.TInt8, 7), univ.UintOf(univ.TUint64, 1<<63), univ.NilIface(), univ.JSONNum("7")}
+	univ.Float(1.5), univ.FloatOf(univ.TFloat32, 0.5), univ.StrOf(univ.NamedScalarTypes[9], "abc"), univ.IntOf(univ.TInt8, 7), univ.UintOf(univ.TUint64, 1<<63), univ.NilIface(), univ.JSONNum("7"),
+	// float32 values that are not dyadic (0.1f != 0.1), out of float32 range literals tell the widths apart too
+	univ.FloatOf(univ.TFloat32, float64(float32(0.1))), univ.FloatOf(univ.TFloat32, float64(float32(1.1))), univ.FloatOf(univ.TFloat32, float64(float32(16777217))), univ.JSONNum("0.1"), univ.JSONNum("1e2"), univ.IntOf(univ.TInt16, -300), univ.UintOf(univ.TUint32, 1<<31)}
 
-var c05Lits = []string{"1", "abc", "", "7", "true", "1.5", "^a", "x", "200", "0", "(", "a(b", "*", "[a-", "99999999999999999999"}
+var c05Lits = []string{"1", "abc", "", "7", "true", "1.5", "^a", "x", "200", "0", "(", "a(b", "*", "[a-", "99999999999999999999", "0.1", "1.1", "1e39", "16777217", "16777216", "100", "-300", "2147483648", "0.10000000149011612"}
 
 const c05Absent = "zzAbsentKey"
 
